@@ -172,12 +172,12 @@ theorem processing_reverified_partial (s : State) (bad : List Nat) (h : Nat) (p 
 /-! non-vacuity: a concrete sync history — start at the tip, accept two blocks while syncing, two
 processing blocks (one invalid with a valid child), finish BEHIND the tip, then reject the failures -/
 def demoOps : List Op :=
-  [.start ⟨100, 99, 0, false⟩, .parse ⟨101, 100, 1, false⟩, .verify 2, .accept 2,
-   .parse ⟨102, 101, 2, false⟩, .verify 3, .accept 3,
-   .parse ⟨103, 102, 3, true⟩, .verify 4, .parse ⟨104, 103, 4, false⟩, .verify 5,
-   .finish ⟨100, 99, 0, false⟩ [100]]
-def demo : Sys := (Sys.init 2 2 0 ⟨100, 99, 0, false⟩ true).run demoOps
-example : engineOK (Sys.init 2 2 0 ⟨100, 99, 0, false⟩ true) demoOps = true := by decide
+  [.start ⟨100, 99, 0, false, none⟩, .parse ⟨101, 100, 1, false, none⟩, .verify 2 none, .accept 2,
+   .parse ⟨102, 101, 2, false, none⟩, .verify 3 none, .accept 3,
+   .parse ⟨103, 102, 3, true, none⟩, .verify 4 none, .parse ⟨104, 103, 4, false, none⟩, .verify 5 none,
+   .finish ⟨100, 99, 0, false, none⟩ [100]]
+def demo : Sys := (Sys.init 2 2 0 ⟨100, 99, 0, false, none⟩ true).run demoOps
+example : engineOK (Sys.init 2 2 0 ⟨100, 99, 0, false, none⟩ true) demoOps = true := by decide
 example : demo.s.ready = true ∧ demo.s.unresolved = some [103, 104] := by decide
 example : ((demo.s.obj demo.s.lastAccepted).out.map (·.st)) = some [100, 101, 102] := by decide
 example : health ((demo.run [.reject 4, .reject 5]).s) = .health true (some 0) := by decide
@@ -190,16 +190,16 @@ goroutine) may run after the engine rejected a block `A` and before it rejects `
 `verifyProcessingBlocks` then cannot fetch `B`'s parent and returns a fatal error: the VM never
 becomes ready.  The call sequence below satisfies `EngineOK` call by call. -/
 def cexOps : List Op :=
-  [.start ⟨100, 99, 0, false⟩, .parse ⟨101, 100, 1, false⟩, .verify 2, .parse ⟨102, 101, 2, false⟩, .verify 3,
-   .parse ⟨103, 100, 1, false⟩, .verify 4, .accept 4, .reject 2]
-def cex : Sys := (Sys.init 2 2 0 ⟨100, 99, 0, false⟩ true).run cexOps
+  [.start ⟨100, 99, 0, false, none⟩, .parse ⟨101, 100, 1, false, none⟩, .verify 2 none, .parse ⟨102, 101, 2, false, none⟩, .verify 3 none,
+   .parse ⟨103, 100, 1, false, none⟩, .verify 4 none, .accept 4, .reject 2]
+def cex : Sys := (Sys.init 2 2 0 ⟨100, 99, 0, false, none⟩ true).run cexOps
 
 /-- **c21_counterexample** — an `EngineOK` history on which `FinishStateSync` at the tip fails fatally
 and the VM stays not ready (negation of "whenever sync finishes the node ends ready with the executed
 state" for this interleaving). -/
 theorem c21_counterexample :
-    engineOK (Sys.init 2 2 0 ⟨100, 99, 0, false⟩ true) (cexOps ++ [.finish ⟨103, 100, 1, false⟩ [103]]) = true ∧
-    (step cex.s (.finish ⟨103, 100, 1, false⟩ [103])).2 = .err "parentfetch" ∧
-    (step cex.s (.finish ⟨103, 100, 1, false⟩ [103])).1.ready = false := by decide
+    engineOK (Sys.init 2 2 0 ⟨100, 99, 0, false, none⟩ true) (cexOps ++ [.finish ⟨103, 100, 1, false, none⟩ [103]]) = true ∧
+    (step cex.s (.finish ⟨103, 100, 1, false, none⟩ [103])).2 = .err "parentfetch" ∧
+    (step cex.s (.finish ⟨103, 100, 1, false, none⟩ [103])).1.ready = false := by decide
 
 end HyperModel.Props.C21
